@@ -191,6 +191,13 @@ func Run(t *testing.T, opts Opts, prop func(*Case)) {
 
 	var lastPath, lastMsg string
 	start := time.Now()
+	defer func() {
+		// rapid.Check ends a failing test with FailNow (Goexit), so report here.
+		rec.addWall(test, time.Since(start), n)
+		if t.Failed() && lastPath != "" {
+			fmt.Printf("VERIF-FAIL test=%s trace=%s\n%s\n", test, lastPath, firstLines(lastMsg, 40))
+		}
+	}()
 	rapid.Check(t, func(rt *rapid.T) {
 		c := &Case{b: &rapidBackend{t: rt}, rec: rec, test: test, mode: "rapid"}
 		msg, failed := runBody(c, prop)
@@ -199,10 +206,6 @@ func Run(t *testing.T, opts Opts, prop func(*Case)) {
 			rt.Fatalf("%s", msg)
 		}
 	})
-	rec.addWall(test, time.Since(start), n)
-	if t.Failed() && lastPath != "" {
-		fmt.Printf("VERIF-FAIL test=%s trace=%s\n%s\n", test, lastPath, firstLines(lastMsg, 40))
-	}
 }
 
 func firstLines(s string, n int) string {
